@@ -10,6 +10,7 @@ CONSTANTS
   FullLevels = {3}
   MedLevels = {}
   TinyLevels = {1,2,4}
+  AliasLevels = {}
   XOffs = {31,32,33}
   XLens = {32}
   MaxLen = 70
